@@ -259,28 +259,34 @@ void apply(int op, uint8_t a, uint8_t b, int ns, int nw, int nu)
     case S_ALLOC: {
         bool clr = b & 1;
         size_t sz = 1000 + (size_t)g_serial;
+        const uint64_t S_f0 = alloc_failures();
         bool occupied = sh[i] >= 0;
         size_t destroyed_before = 0;
         for (auto &al : A) destroyed_before += al.destroyed;
         if (occupied) pred_drop_owner(sh[i], i);
         sh[i] = -1;
-        if ((b >> 4) == 0xF) {
-            CNT("class.alloc.zero_bytes");
-            LIB(cstl_shared_ptr_alloc(&SP[i], 0, clr ? clr_cb_sh : nullptr));
+        if ((b >> 4) >= 0xE) {
+            // zero bytes, or a SMALL object (1..256 bytes: the ordinary path tells the managed block from the bookkeeping
+            // block by size, here get() identifies it)
+            const size_t zs = (b >> 4) == 0xF ? 0 : 1 + ((size_t)g_serial * 37 + b) % 256;
+            if (zs) CNT("class.alloc.small_object"); else CNT("class.alloc.zero_bytes");
+            LIB(cstl_shared_ptr_alloc(&SP[i], zs, clr ? clr_cb_sh : nullptr));
             std::vector<void *> live = zero_alloc_events("shared_alloc");
             void *g;
             LIB(g = cstl_shared_ptr_get(&SP[i]));
-            TRACE("S%d alloc(0%s)%s -> %s", i, clr ? ", clr" : "", occupied ? " [occupied]" : "", g ? "a block of no bytes" : "empty");
+            if (g && zs) memset(g, 0xA5, zs);
+            if (zs && alloc_failures() == S_f0) CHECK(g != nullptr, CL("get"), "shared_alloc of %zu bytes with no refused request left the object empty", zs);
+            TRACE("S%d alloc(%zu%s)%s -> %s", i, zs, clr ? ", clr" : "", occupied ? " [occupied]" : "", g ? "a block" : "empty");
             if (!g) CHECK(live.empty(), CL("leak"), "shared_alloc of zero bytes left the object empty but kept %zu block(s)", live.size());
             else {
                 auto it = std::find(live.begin(), live.end(), g);
-                CHECK(it != live.end() && live.size() == 2, CL("events"), "shared_alloc of zero bytes: get() returns %p, the call left %zu live block(s)", g, live.size());
+                CHECK(it != live.end() && live.size() == 2, CL("events"), "shared_alloc of %zu bytes: get() returns %p, the call left %zu live block(s) (the managed memory and the bookkeeping are two blocks: the memory goes when the last owner goes, the bookkeeping when the last weak reference goes)", zs, g, live.size());
                 live.erase(it);
                 Alloc al;
                 al.serial = g_serial++;
                 al.book = live[0];
                 al.ptr = g;
-                al.size = 0;
+                al.size = zs;
                 al.has_clr = clr;
                 al.clr_calls = 0;
                 al.destroyed = al.book_freed = false;
